@@ -112,8 +112,8 @@ func BackendCfg(cfg Cfg, backend string, reference bool) Cfg {
 // As-is deviations per backend (see Queue.tla, Dev).  Entries are removed
 // here when the corresponding divergence is repaired in the repository.
 var (
-	MemoryDevs = []string{"NoTrimSingle", "RawDeadReason"}
-	SQLiteDevs = []string{"PruneThenSweep", "SingleDropOne"}
+	MemoryDevs = []string{}
+	SQLiteDevs = []string{}
 )
 
 type Event map[string]any
